@@ -12,6 +12,7 @@ import (
 
 	"verif/harness/internal/gen"
 	"verif/harness/internal/mon"
+	"verif/harness/internal/ref"
 )
 
 func main() { mon.Main("C17", run) }
@@ -132,6 +133,54 @@ func run(c *mon.Ctx) {
 	c.Floor("event.predicate_error", 100)
 	c.Floor("event.no_payload", 300)
 	c.Stream("histories", c.N(30000, 40000000), func(i int, r *gen.Rand) { history(c, r) })
+	// units far longer than any section or PES packet: completion is the predicate's business alone
+	c.Floor("long_unit.bytes_above_64k", 4)
+	c.Stream("long-unit", c.N(8, 400), func(i int, r *gen.Rand) { longUnit(c, r) })
+}
+
+func longUnit(c *mon.Ctx, r *gen.Rand) {
+	threshold := r.PickInt([]int{-1, -1, 65536, 65541, 65542, 66000, 70000 + r.Intn(60000), 140000})
+	calls := 0
+	acc := packet.NewAccumulator(func(b []byte) (bool, error) {
+		calls++
+		return threshold >= 0 && len(b) >= threshold, nil
+	})
+	pid := 32 + r.Intn(8000)
+	var want []byte
+	n := 0
+	total := 380 + r.Intn(500)
+	for k := 0; k < total; k++ {
+		chunk := r.Bytes(184)
+		if k > 0 && r.Chance(10) {
+			chunk = r.Bytes(1 + r.Intn(183))
+		}
+		pk := packet.Packet(ref.PayloadPacket(pid, k, k == 0, chunk))
+		_, err := acc.WritePacket(&pk)
+		c.Eval(1)
+		want = append(want, chunk...)
+		n++
+		holds := threshold >= 0 && len(want) >= threshold
+		if holds != (err == gots.ErrAccumulatorDone) || (!holds && err != nil) {
+			c.Fail("long-unit:completion", fmt.Sprintf("packet %d of a unit (%d payload bytes so far, predicate holds from %d bytes on; -1 = never): WritePacket returned %v", k, len(want), threshold, err), wit{Detail: fmt.Sprintf("threshold %d, %d bytes", threshold, len(want))})
+			return
+		}
+		if holds {
+			break
+		}
+	}
+	if len(want) >= 65536 {
+		c.Count("long_unit.bytes_above_64k")
+	}
+	if got := acc.Bytes(); !bytes.Equal(got, want) {
+		c.Fail("long-unit:bytes", fmt.Sprintf("Bytes() of a %d-byte unit differs from the concatenated payloads at byte %d (got %d bytes)", len(want), firstDiff(got, want), len(got)), wit{Detail: fmt.Sprintf("threshold %d", threshold)})
+	}
+	if got := acc.Packets(); len(got) != n {
+		c.Fail("long-unit:packets", fmt.Sprintf("Packets() lists %d packets, %d were accepted", len(got), n), wit{Detail: fmt.Sprintf("threshold %d", threshold)})
+	}
+	if calls != n {
+		c.Fail("long-unit:predicate-calls", fmt.Sprintf("the predicate was evaluated %d times for %d accepted packets", calls, n), wit{Detail: fmt.Sprintf("threshold %d", threshold)})
+	}
+	c.Class(fmt.Sprintf("long-unit/threshold=%d", threshold/20000))
 }
 
 func history(c *mon.Ctx, r *gen.Rand) {
